@@ -26,7 +26,7 @@ class C16Run(E2Run):
     prop = "C16"
 
     def profile(self) -> Dict:
-        return {"topologies": ["lan", "lan", "routed"], "max_hosts_per_subnet": 2, "tight_links": 0.0, "random_acl_rules": (0, 0), "permit_all_rule": 1.0, "users": 1.0, "durations": [1, 2], "avoid": ["listen_on_ports"]}
+        return {"topologies": ["lan", "lan", "routed"], "max_hosts_per_subnet": 2, "tight_links": 0.0, "random_acl_rules": (0, 0), "permit_all_rule": 1.0, "users": 1.0, "durations": [0, 1, 2], "avoid": ["listen_on_ports"]}
 
     def after_build(self):
         self.hosts = [n for n in self.network.nodes.values() if n.__class__.__name__ in ("Computer", "Server", "Printer")]
@@ -56,7 +56,9 @@ class C16Run(E2Run):
     def refresh(self):
         """Time-outs: a session is certainly dead once last + timeout + 1 <= now (one tick of tolerance)."""
         for s in self.sessions:
-            if s["state"] == "live":
+            if s["state"] in ("live", "unknown"):
+                # (whatever made a session's state unknown - a power cycle, a restarted terminal - its inactivity
+                # timer keeps running: past the latest possible last activity + time-out it is dead)
                 to = self.knobs[s["server"]]["timeout"]
                 if self.t >= s["hi"] + to + 1:
                     s["state"] = "dead"
@@ -162,6 +164,13 @@ class C16Run(E2Run):
                 self.sessions.append({"client": hn, "server": srv, "user": meta["user"], "lo": self.t, "hi": self.t, "state": "live"})
             else:
                 self.probe("c16_remote_login_refused")
+                # bounded liveness: valid credentials, both ends up, interfaces up, and even counting every session
+                # that might still be alive there is room - the login must be accepted
+                possibly = sum(1 for s_ in self.sessions if s_["server"] == srv and s_["state"] in ("live", "unknown"))
+                nics_up = all(any(n_.enabled for n_ in x.network_interface.values()) for x in (node, target) if x is not None)
+                if a is not None and not a["disabled"] and a["password"] == meta["password"] and target_ok and client_ok and nics_up and possibly < self.knobs[srv]["max"] and hn != srv:
+                    self.probe("c16_login_expected")
+                    raise Violation("C16", "login-refused-although-possible", f"remote login {hn} -> {srv} as {meta['user']} was refused although the account is enabled, the password is current, both terminals are up and at most {possibly} of {self.knobs[srv]['max']} sessions can be open", sig="login-refused-although-possible", detail={"sessions": jsonable(self.sessions), "t": self.t})
                 # the server may have authorised the login although the client never saw the answer (its terminal not
                 # accepting traffic): a half-open session may exist on the server
                 if a is not None and not a["disabled"] and a["password"] == meta["password"] and target_ok:
@@ -172,9 +181,18 @@ class C16Run(E2Run):
             # (the terminal searches client- and server-side connections alike, so sessions the target holds HERE are
             # candidates too)
             cands = self.live_possible(hn, meta["target"]) + self.live_possible(meta["target"], hn)
-            if len(cands) == 1:
+            # connection objects of sessions that ended without the client hearing of it (timed out or password changed
+            # while it was rebooting) are still in the client's list and may be the one that gets "logged off"
+            stale = [s_ for s_ in self.sessions if {s_["client"], s_["server"]} == {hn, meta["target"]} and s_["state"] == "dead" and s_.get("why") != "logoff"]
+            # the far end only learns of the logoff if the notice can be delivered
+            deliverable = target_ok and all(any(n_.enabled for n_ in x.network_interface.values()) for x in (node, target) if x is not None)
+            if len(cands) == 1 and cands[0]["client"] == hn and not stale and deliverable:
                 cands[0]["state"] = "dead"
                 cands[0]["why"] = "logoff"
+            elif len(cands) == 1:
+                # logoff issued by the server side: the terminal connection goes, the server's own session record stays
+                # until it times out - no longer usable, but still counted
+                cands[0]["state"] = "unknown"
             else:
                 for s in cands:
                     s["state"] = "unknown"
@@ -194,10 +212,9 @@ class C16Run(E2Run):
                 # the command travelled on ONE of the candidate sessions (the client's choice): only that one's
                 # inactivity timer was reset
                 for s in cands:
-                    if s["state"] == "live":
-                        s["hi"] = self.t
-                        if len(cands) == 1:
-                            s["lo"] = self.t
+                    s["hi"] = self.t
+                    if s["state"] == "live" and len(cands) == 1:
+                        s["lo"] = self.t
             else:
                 self.probe("c16_remote_command_no_effect")
         elif kind == "local_command":
@@ -237,7 +254,37 @@ class C16Run(E2Run):
             x = r.random()
             users_b = list(self.acct[bn]) + ["ghost"]
             users_a = list(self.acct[hn]) + ["ghost"]
-            if x < 0.22:
+            if x < 0.04 and others:
+                # log off while the client's own terminal service is not running, then come back and log in again
+                u = r.choice(list(self.acct[bn]))
+                pw = self.acct[bn][u]["password"]
+                self.emit(["req", base + ["service", "terminal", "node_session_remote_login", u, pw, self.ip[bn]], "login", {"kind": "remote_login", "target": bn, "user": u, "password": pw}])
+                down, up = r.choice([("stop", "start"), ("pause", "resume"), ("restart", None)])
+                self.emit(["req", base + ["service", "terminal", down], "F4_service", {"kind": "stop_terminal"}])
+                self.emit(["req", base + ["service", "terminal", "remote_logoff", self.ip[bn]], "logoff", {"kind": "remote_logoff", "target": bn}])
+                if up:
+                    self.emit(["req", base + ["service", "terminal", up], "F4_service", {"kind": "stop_terminal"}])
+                else:
+                    for _ in range(4):
+                        self.emit(["tick"])
+                self.emit(["req", base + ["service", "terminal", "node_session_remote_login", u, pw, self.ip[bn]], "login", {"kind": "remote_login", "target": bn, "user": u, "password": pw}])
+                self.probe("c16_logoff_with_client_terminal_down_motif")
+            elif x < 0.07 and others:
+                # the server sleeps through the session's time-out and is used again the moment it is back
+                u = r.choice(list(self.acct[bn]))
+                pw = self.acct[bn][u]["password"]
+                self.emit(["req", base + ["service", "terminal", "node_session_remote_login", u, pw, self.ip[bn]], "login", {"kind": "remote_login", "target": bn, "user": u, "password": pw}])
+                self.emit(["req", ["network", "node", bn, "shutdown"], "F1_power", {"kind": "power"}])
+                for _ in range(self.knobs[bn]["timeout"] + b.config.shut_down_duration + r.choice([1, 2, 3])):
+                    self.emit(["tick"])
+                self.emit(["req", ["network", "node", bn, "startup"], "F1_power", {"kind": "power"}])
+                for _ in range(b.config.start_up_duration):
+                    self.emit(["tick"])
+                self.n_probe += 1
+                probe = f"probe_{self.n_probe}"
+                self.emit(["req", base + ["service", "terminal", "send_remote_command", self.ip[bn], {"command": ["file_system", "create", "folder", probe]}], "command", {"kind": "remote_command", "target": bn, "probe": probe}])
+                self.probe("c16_server_sleeps_past_timeout_motif")
+            elif x < 0.22:
                 self.emit(["tick"])
             elif x < 0.40:
                 u = r.choice(users_b)
